@@ -223,9 +223,22 @@ class SchemaGen:
 
     def aitem(self, depth):
         rng = self.rng
-        choices = ["ent"] * 6 + (["inline", "gor"] if depth > 0 else []) + (["gref"] if self.avail_g else [])
+        choices = ["ent"] * 6 + (["inline", "gor"] if depth > 0 else []) + (["gref", "gref2"] if self.avail_g else [])
         k = rng.choice(choices)
         self.note("aitem:" + k)
+        if k == "gref2":
+            # the same named group met again at the same element index: alternatives with a shared named prefix,
+            # a repetition followed by the group, the group twice (seeded C01-4 / C02-4: recursion guard of group references)
+            g = ("gref", rng.choice(self.avail_g))
+            e1 = ("ent", None, False, self.ty(0))
+            e2 = ("ent", None, False, self.ty(0))
+            shape = rng.choice(["alt-prefix", "alt-prefix", "rep-then", "twice"])
+            self.note("gref2:" + shape)
+            if shape == "alt-prefix":
+                return ("gor", ("seq", g, e1), ("seq", g, e2))
+            if shape == "rep-then":
+                return ("seq", ("occ", 0, None, ("seq", g, e1)), g)
+            return ("seq", g, g)
         if k == "ent":
             key = ("lit", ("txt", rng.choice(KEYS))) if rng.random() < 0.15 else None
             return self.wrap_occ(("ent", key, key is not None, self.ty(depth)))
